@@ -1,26 +1,111 @@
 (* C20: the regex engine (Model/Regex.v) reports exactly the reachable straight-line occurrences.
    visited = reachable set, matches = occurrences at reachable positions (no duplicates, listed in order),
-   covered is sound (but incomplete: finding D14), meaning of the returned boolean, fuel monotonicity. *)
+   the covered set of the depth-first search alone is sound but incomplete (finding D14, kept as documentation);
+   the backward closure added to match_regex makes covered EXACT: the reachable positions from which a
+   reachable match start can be reached in at least one step.  Meaning of the returned boolean, fuel monotonicity.
+   Reachability is over rstep_rx: fall-through and jump successors, and callsub -> entry label of the callee
+   (the search follows callsub into the subroutine: finding D25, fixed in the tool). *)
 From Coq Require Import String Ascii List NArith Bool Arith Lia FinFun.
-From Tealer Require Import Tables Syntax Parse Cfg Analysis Regex.
+From Tealer Require Import Tables Syntax Parse Cfg Analysis Regex InsExec.
 Import ListNotations.
 Close Scope string_scope.
 Open Scope nat_scope.
 Open Scope list_scope.
 
 (* ------------------------------------------------------------------ instruction-level control flow *)
-Definition istep (p : prog) (a b : nat) : Prop := exists nx, ins_next p a = Some nx /\ In b nx.
+(* declarative: j -> k when j falls through to k = j+1, or jumps to a label at k, or is a callsub of the
+   subroutine whose label is at k (labels resolve to their last definition: find_label = InsExec.label_at) *)
+Definition rstep_rx (p : prog) (j k : nat) : Prop :=
+  exists i, op_at p j = Some i /\
+    ((no_fallthrough i = false /\ S j < length p /\ k = S j) \/
+     (exists l, In l (jump_labels i) /\ find_label p l = Some k) \/
+     (exists l, i = ICallsub l /\ find_label p l = Some k)).
+
+Lemma map_opt_In {A B} (f : A -> option B) : forall l r y,
+  map_opt f l = Some r -> (In y r <-> exists x, In x l /\ f x = Some y).
+Proof.
+  induction l as [|x l IH]; intros r y H; simpl in H.
+  - inversion H; subst. split; [intros [] | intros (x & [] & _)].
+  - destruct (f x) as [b|] eqn:Ef; [|discriminate].
+    destruct (map_opt f l) as [r'|] eqn:Er; [|discriminate]. inversion H; subst r.
+    simpl. rewrite (IH r' y eq_refl). split.
+    + intros [<-|(x' & Hx' & Hf)]; [exists x; auto | exists x'; auto].
+    + intros (x' & [<-|Hx'] & Hf); [left; congruence | right; exists x'; auto].
+Qed.
+
+Lemma callee_label_spec i l : callee_label i = Some l <-> i = ICallsub l.
+Proof. destruct i; simpl; split; intros E; try discriminate; congruence. Qed.
+
+Lemma callee_label_jumps i l : callee_label i = Some l -> jump_labels i = [] /\ no_fallthrough i = false.
+Proof. intros E. apply callee_label_spec in E. subst. split; reflexivity. Qed.
+
+(* the successor list of the model (Python's _successors) lists exactly the rstep_rx successors *)
+Theorem rx_next_spec : forall p j nx k, rx_next p j = Some nx -> (In k nx <-> rstep_rx p j k).
+Proof.
+  intros p j nx k H. unfold rx_next, ins_next in H. unfold rstep_rx.
+  destruct (op_at p j) as [i|] eqn:Eo; [|discriminate].
+  destruct (map_opt (find_label p) (jump_labels i)) as [js|] eqn:Ej; [|discriminate].
+  destruct (callee_label i) as [l|] eqn:Ec.
+  - destruct (callee_label_jumps i l Ec) as (Hj & Hf). apply callee_label_spec in Ec.
+    rewrite Hj in Ej. simpl in Ej. inversion Ej; subst js.
+    destruct (find_label p l) as [e|] eqn:El; [|discriminate]. inversion H; subst nx.
+    rewrite app_nil_r, in_app_iff. split.
+    + intros [Hk|[<-|[]]].
+      * exists i. split; [reflexivity|]. left.
+        rewrite Hf in *. simpl in Hk. destruct (Nat.ltb (S j) (length p)) eqn:Elt; [|destruct Hk].
+        apply Nat.ltb_lt in Elt. destruct Hk as [<-|[]]. auto.
+      * exists i. split; [reflexivity|]. right; right. exists l. split; assumption.
+    + intros (i' & Ei & [(_ & Hlt & ->) | [(l' & Hl' & _) | (l' & Hi' & Hk)]]); injection Ei as <-.
+      * left. rewrite Hf. simpl. apply Nat.ltb_lt in Hlt. rewrite Hlt. left; reflexivity.
+      * rewrite Hj in Hl'. destruct Hl'.
+      * right. left. rewrite Ec in Hi'. inversion Hi'; subst l'. congruence.
+  - inversion H; subst nx. rewrite in_app_iff, (map_opt_In _ _ _ k Ej). split.
+    + intros [Hk|(l & Hl & Hk)].
+      * exists i. split; [reflexivity|]. left.
+        destruct (no_fallthrough i); simpl in Hk; [destruct Hk|].
+        destruct (Nat.ltb (S j) (length p)) eqn:Elt; [|destruct Hk].
+        apply Nat.ltb_lt in Elt. destruct Hk as [<-|[]]. auto.
+      * exists i. split; [reflexivity|]. right; left. exists l. split; assumption.
+    + intros (i' & Ei & [(Hf & Hlt & ->) | [(l' & Hl' & Hk) | (l' & Hi' & _)]]); injection Ei as <-.
+      * left. rewrite Hf. simpl. apply Nat.ltb_lt in Hlt. rewrite Hlt. left; reflexivity.
+      * right. exists l'. split; assumption.
+      * apply callee_label_spec in Hi'. congruence.
+Qed.
+
+Lemma rx_step_in p j nx k : rx_next p j = Some nx -> In k nx -> rstep_rx p j k.
+Proof. intros H Hk. apply (rx_next_spec p j nx k H); assumption. Qed.
+
+Lemma rx_step_inv p j nx k : rx_next p j = Some nx -> rstep_rx p j k -> In k nx.
+Proof. intros H Hk. apply (rx_next_spec p j nx k H); assumption. Qed.
+
+(* rstep_rx against the program-counter semantics of Spec/InsExec.v: every control step other than a retsub
+   step is an rstep_rx edge (a retsub returns to the instruction after some callsub, which the regex graph
+   reaches through that callsub's fall-through edge) *)
+Theorem insexec_step_rstep_rx : forall p j st k st',
+  InsExec.istep p (j, st) (k, st') -> op_at p j <> Some IRetsub -> rstep_rx p j k.
+Proof.
+  intros p j st k st' H Hnr. inversion H; subst.
+  - exists (IB l). split; [assumption|]. right; left. exists l. split; [left; reflexivity | apply label_at_find_label; assumption].
+  - exists (IBZ l). split; [assumption|]. right; left. exists l. split; [left; reflexivity | apply label_at_find_label; assumption].
+  - exists (IBNZ l). split; [assumption|]. right; left. exists l. split; [left; reflexivity | apply label_at_find_label; assumption].
+  - exists (ISwitch ls). split; [assumption|]. right; left. exists l. split; [assumption | apply label_at_find_label; assumption].
+  - exists (IMatch ls). split; [assumption|]. right; left. exists l. split; [assumption | apply label_at_find_label; assumption].
+  - exists (ICallsub l). split; [assumption|]. right; right. exists l. split; [reflexivity | apply label_at_find_label; assumption].
+  - contradiction.
+  - exists i. split; [assumption|]. left. repeat split; [|assumption].
+    destruct i; try reflexivity; discriminate.
+Qed.
 
 Inductive Reach (p : prog) : nat -> nat -> Prop :=
 | Reach_refl : forall a, Reach p a a
-| Reach_step : forall a b c, istep p a b -> Reach p b c -> Reach p a c.
+| Reach_step : forall a b c, rstep_rx p a b -> Reach p b c -> Reach p a c.
 
-Definition ReachPlus (p : prog) (a c : nat) : Prop := exists b, istep p a b /\ Reach p b c.
+Definition ReachPlus (p : prog) (a c : nat) : Prop := exists b, rstep_rx p a b /\ Reach p b c.
 
 Lemma Reach_trans p a b c : Reach p a b -> Reach p b c -> Reach p a c.
 Proof. induction 1; intros; [assumption|]. eapply Reach_step; eauto. Qed.
 
-Lemma Reach_one p a b : istep p a b -> Reach p a b.
+Lemma Reach_one p a b : rstep_rx p a b -> Reach p a b.
 Proof. intros; eapply Reach_step; [eassumption | apply Reach_refl]. Qed.
 
 Lemma ReachPlus_Reach p a c : ReachPlus p a c -> Reach p a c.
@@ -160,7 +245,7 @@ Section Dfs.
   Inductive Dfs : nat -> rstate -> bool -> rstate -> Prop :=
   | Dfs_seen : forall cur st, In cur (r_visited st) -> Dfs cur st false st
   | Dfs_new : forall cur st nx r st',
-      ~ In cur (r_visited st) -> ins_next p cur = Some nx ->
+      ~ In cur (r_visited st) -> rx_next p cur = Some nx ->
       DfsL cur nx (im cur) (enter cur st) r st' -> Dfs cur st r st'
   with DfsL : nat -> list nat -> bool -> rstate -> bool -> rstate -> Prop :=
   | DfsL_nil : forall cur r s, DfsL cur [] r s r s
@@ -190,7 +275,7 @@ Section Dfs.
   Lemma find_unfold fu cur st :
     find_instructions (S fu) p regex cur st =
     if nat_mem cur (r_visited st) then Done (false, st) else
-    match ins_next p cur with
+    match rx_next p cur with
     | None => Exn "KeyError: label"
     | Some nx => fold_left (body fu cur) nx (Done (im cur, enter cur st))
     end.
@@ -221,7 +306,7 @@ Section Dfs.
     destruct (nat_mem cur (r_visited st)) eqn:Ev.
     - inversion H; subst. apply Dfs_seen. apply nat_mem_iff; assumption.
     - apply nat_mem_false in Ev.
-      destruct (ins_next p cur) as [nx|] eqn:En; [|discriminate].
+      destruct (rx_next p cur) as [nx|] eqn:En; [|discriminate].
       eapply Dfs_new; [assumption | eassumption |].
       revert H. generalize (im cur) (enter cur st). clear Ev En.
       induction nx as [|n nx IHnx]; intros r0 s0 H.
@@ -287,7 +372,7 @@ Section Invariants.
       + rewrite Hr, existsb_app. simpl. rewrite orb_false_r. reflexivity.
       + intros v Hv. apply in_app_or in Hv. destruct Hv as [Hv|[<-|[]]]; [|apply Reach_refl].
         destruct (HR v Hv) as (n & Hn & Hnv). eapply Reach_step; [|eassumption].
-        exists nx. split; assumption.
+        eapply rx_step_in; eassumption.
       + intros Hnd. apply HD. constructor; assumption.
     - intros cur r s. exists []. simpl. rewrite app_nil_r. repeat split; auto. intros v [].
     - intros cur n nx r s r' s' Hc _ (nv & HV & HM & Hr & HR & HD).
@@ -324,7 +409,7 @@ Section Invariants.
     apply Dfs_mutind.
     - intros cur st Hin. split; [discriminate | auto].
     - intros cur st nx r st' Hnin Hnx _ (Hr & Hc).
-      assert (Hstep : forall n, In n nx -> istep p cur n) by (intros n Hn; exists nx; split; assumption).
+      assert (Hstep : forall n, In n nx -> rstep_rx p cur n) by (intros n Hn; eapply rx_step_in; eassumption).
       split.
       + intros E. destruct (Hr E) as [Him | (n & k & Hn & Hnk & Hk)].
         * exists cur. split; [apply Reach_refl | assumption].
@@ -366,9 +451,9 @@ Section Invariants.
         * right; right. exists n'. repeat split; [right; assumption | assumption |]. exists k. split; assumption.
   Qed.
 
-  (* --- visited is closed under istep except for the positions on the DFS stack; covered is part of visited *)
+  (* --- visited is closed under rstep_rx except for the positions on the DFS stack; covered is part of visited *)
   Definition closed (V S : list nat) : Prop :=
-    forall a b, In a V -> ~ In a S -> istep p a b -> In b V.
+    forall a b, In a V -> ~ In a S -> rstep_rx p a b -> In b V.
 
   Definition P4 (cur : nat) (st : rstate) (r : bool) (st' : rstate) : Prop :=
     forall S, incl (r_covered st) (r_visited st) -> closed (r_visited st) S ->
@@ -394,7 +479,7 @@ Section Invariants.
       + rewrite enter_visited in H3. repeat split.
         * assumption.
         * intros a b Ha HS Hab. destruct (Nat.eq_dec a cur) as [->|Hne].
-          -- destruct Hab as (nx' & E & Hb). rewrite Hnx in E. inversion E; subst nx'. apply H4; assumption.
+          -- apply H4. eapply rx_step_inv; eassumption.
           -- apply (H2 a b); auto. intros [X|X]; [apply Hne; symmetry; assumption | apply HS; assumption].
         * apply H3. left; reflexivity.
         * intros x Hx. apply H3. right; assumption.
@@ -527,7 +612,7 @@ End Invariants.
    every reachable match is reached by a path all of whose positions before the match are covered *)
 Inductive CPath (p : prog) (C : list nat) : nat -> nat -> Prop :=
 | CPath_refl : forall a, CPath p C a a
-| CPath_step : forall a b k, In a C -> istep p a b -> CPath p C b k -> CPath p C a k.
+| CPath_step : forall a b k, In a C -> rstep_rx p a b -> CPath p C b k -> CPath p C a k.
 
 Lemma CPath_mono p C C' a k : incl C C' -> CPath p C a k -> CPath p C' a k.
 Proof. intros Hi H. induction H; [apply CPath_refl | eapply CPath_step; eauto]. Qed.
@@ -562,7 +647,7 @@ Section CoveredPartial.
       intros k Hk Hnk Hm. destruct (Nat.eq_dec k cur) as [->|Hne].
       + split; [apply H3; assumption | apply CPath_refl].
       + destruct (H4 k Hk) as (E & Hc & n & Hn & Hp); [intros [X|X]; [apply Hne; symmetry|apply Hnk]; assumption | assumption |].
-        split; [assumption|]. eapply CPath_step; [eassumption | exists nx; split; eassumption | assumption].
+        split; [assumption|]. eapply CPath_step; [eassumption | eapply rx_step_in; eassumption | assumption].
     - intros cur r s. repeat split; try apply incl_refl; auto; contradiction.
     - intros cur n nx r s r' s' Hcov _ (H1 & H2 & H3 & H4). repeat split; auto;
         destruct (H4 k H H0 H5) as (E & Hc & n' & Hn' & Hp); auto.
@@ -612,7 +697,7 @@ Proof.
   destruct fuel' as [|fu']; [lia|]. assert (Hle' : fu <= fu') by lia.
   rewrite find_unfold in *.
   destruct (nat_mem cur (r_visited st)); [assumption|].
-  destruct (ins_next p cur) as [nx|]; [|discriminate].
+  destruct (rx_next p cur) as [nx|]; [|discriminate].
   revert H. generalize (Done (im p regex cur, enter p regex cur st)).
   induction nx as [|n nx IHnx]; intros acc H; [assumption|].
   simpl in *. destruct (fold_body_done _ _ _ _ _ _ _ H) as (y & Hy).
@@ -634,6 +719,226 @@ Proof.
   - rewrite (find_fuel_mono _ _ _ _ _ _ _ H H2) in H1. congruence.
 Qed.
 
+(* ------------------------------------------------------------------ 8. the backward closure of match_regex *)
+(* every visited position has a successor list (otherwise the search raises) *)
+Section VisitedSome.
+  Variable p : prog.
+  Variable regex : list instr.
+  Definition all_some (V : list nat) : Prop := forall v, In v V -> exists nx, rx_next p v = Some nx.
+
+  Lemma visited_some_inv :
+    (forall cur st r st', Dfs p regex cur st r st' -> all_some (r_visited st) -> all_some (r_visited st')) /\
+    (forall cur nx r s r' s', DfsL p regex cur nx r s r' s' -> all_some (r_visited s) -> all_some (r_visited s')).
+  Proof.
+    apply Dfs_mutind.
+    - auto.
+    - intros cur st nx r st' Hnin Hnx _ IH Ha. apply IH. rewrite enter_visited.
+      intros v [<-|Hv]; [eauto | apply Ha; assumption].
+    - auto.
+    - auto.
+    - intros cur n nx r s b s1 r' s' Hncov _ IH1 _ IH2 Ha. apply IH2. rewrite cover_visited. apply IH1; assumption.
+  Qed.
+
+  Theorem visited_some : forall fuel start r st,
+    find_instructions fuel p regex start (mkR [] [] []) = Done (r, st) -> all_some (r_visited st).
+  Proof.
+    intros fuel start r st Hrun.
+    apply (proj1 visited_some_inv _ _ _ _ (find_Dfs p regex fuel start _ r st Hrun)). intros v [].
+  Qed.
+End VisitedSome.
+
+Lemma prevs_in_table p V j k :
+  In j (prevs_in (next_table p V) k) <-> In j V /\ exists nx, rx_next p j = Some nx /\ In k nx.
+Proof.
+  unfold prevs_in, next_table. rewrite in_map_iff. split.
+  - intros ([j' e] & Hj & Hin). simpl in Hj. subst j'. apply filter_In in Hin. destruct Hin as (Hin & Hm).
+    apply in_map_iff in Hin. destruct Hin as (x & Hx & HxV). inversion Hx; subst. simpl in Hm.
+    split; [assumption|].
+    destruct (rx_next p j) as [nx|]; [|discriminate].
+    exists nx. split; [reflexivity | apply nat_mem_iff; assumption].
+  - intros (HjV & nx & Hn & Hk). exists (j, Some nx). split; [reflexivity|]. apply filter_In. split.
+    + apply in_map_iff. exists j. split; [rewrite Hn; reflexivity | assumption].
+    + simpl. apply nat_mem_iff; assumption.
+Qed.
+
+(* the predecessor map: the visited positions with an rstep_rx edge to k *)
+Theorem ins_prevs_spec : forall p V j k,
+  (forall v, In v V -> exists nx, rx_next p v = Some nx) ->
+  (In j (ins_prevs p V k) <-> In j V /\ rstep_rx p j k).
+Proof.
+  intros p V j k HV. unfold ins_prevs. rewrite prevs_in_table. split.
+  - intros (Hj & nx & Hn & Hk). split; [assumption | eapply rx_step_in; eassumption].
+  - intros (Hj & Hs). split; [assumption|]. destruct (HV j Hj) as (nx & Hn).
+    exists nx. split; [assumption | eapply rx_step_inv; eassumption].
+Qed.
+
+(* positions of V from which a position of Hs is reached in at least one step, all positions before the last in V *)
+Inductive BReach (p : prog) (V Hs : list nat) : nat -> Prop :=
+| BR_head : forall c k, In c V -> rstep_rx p c k -> In k Hs -> BReach p V Hs c
+| BR_step : forall c b, In c V -> rstep_rx p c b -> BReach p V Hs b -> BReach p V Hs c.
+
+Section Back.
+  Variable p : prog.
+  Variable prev : nat -> list nat.
+  Variables V Hs : list nat.
+  Hypothesis Hprev : forall j k, In j (prev k) <-> In j V /\ rstep_rx p j k.
+
+  Lemma fold_push : forall l wl acc, exists new,
+    fold_left back_push l (wl, acc) = (new ++ wl, new ++ acc) /\
+    (forall j, In j new -> In j l /\ ~ In j acc) /\
+    (NoDup acc -> NoDup (new ++ acc)) /\
+    (forall j, In j l -> In j (new ++ acc)).
+  Proof.
+    induction l as [|j l IH]; intros wl acc.
+    - exists []. simpl. repeat split; auto; contradiction.
+    - simpl. unfold back_push at 2. simpl.
+      destruct (nat_mem j acc) eqn:Ea.
+      + destruct (IH wl acc) as (new & E & H1 & H2 & H3). exists new. rewrite E. repeat split; auto.
+        * right. apply (H1 j0 H).
+        * apply (H1 j0 H).
+        * intros x [<-|Hx]; [|apply H3; assumption].
+          apply in_or_app. right. apply nat_mem_iff; assumption.
+      + apply nat_mem_false in Ea.
+        destruct (IH (j :: wl) (j :: acc)) as (new & E & H1 & H2 & H3).
+        exists (new ++ [j]). rewrite E, <- !app_assoc. simpl. repeat split.
+        * apply in_app_or in H. destruct H as [H|[<-|[]]]; [right; apply (H1 j0 H) | left; reflexivity].
+        * apply in_app_or in H. destruct H as [H|[<-|[]]]; [|assumption].
+          intros X. apply (proj2 (H1 j0 H)). right; assumption.
+        * intros Hnd. apply H2. constructor; assumption.
+        * intros x [<-|Hx]; [apply in_or_app; right; left; reflexivity | apply H3; assumption].
+  Qed.
+
+  Definition BInv (wl acc : list nat) : Prop :=
+    NoDup acc /\ incl acc V /\ (forall c, In c acc -> BReach p V Hs c) /\
+    (forall k, In k wl -> In k Hs \/ In k acc) /\
+    (forall k, In k Hs \/ In k acc -> In k wl \/ forall j, In j V -> rstep_rx p j k -> In j acc).
+
+  Lemma back_close_inv : forall fuel wl acc,
+    BInv wl acc -> length wl + length V < fuel + length acc ->
+    (forall c, In c (back_close fuel prev wl acc) -> BReach p V Hs c) /\
+    (forall k, In k Hs \/ In k (back_close fuel prev wl acc) ->
+               forall j, In j V -> rstep_rx p j k -> In j (back_close fuel prev wl acc)).
+  Proof.
+    induction fuel as [|fu IH]; intros wl acc (I1 & I2 & I3 & I4 & I5) Hlen.
+    - pose proof (NoDup_incl_length I1 I2). simpl in Hlen. lia.
+    - destruct wl as [|k wl].
+      + simpl. split; [assumption|]. intros k Hk. destruct (I5 k Hk) as [[]|Hc]. assumption.
+      + simpl. destruct (fold_push (prev k) wl acc) as (new & E & H1 & H2 & H3). rewrite E. simpl.
+        apply IH.
+        * repeat split.
+          -- apply H2; assumption.
+          -- intros x Hx. apply in_app_or in Hx. destruct Hx as [Hx|Hx]; [|apply I2; assumption].
+             apply (Hprev x k). apply (H1 x Hx).
+          -- intros c Hc. apply in_app_or in Hc. destruct Hc as [Hc|Hc]; [|apply I3; assumption].
+             destruct (H1 c Hc) as (Hp & _). apply Hprev in Hp. destruct Hp as (HV & Hp).
+             destruct (I4 k (or_introl eq_refl)) as [Hk|Hk].
+             ++ eapply BR_head; eassumption.
+             ++ eapply BR_step; [eassumption | eassumption | apply I3; assumption].
+          -- intros x Hx. apply in_app_or in Hx. destruct Hx as [Hx|Hx].
+             ++ right. apply in_or_app. left; assumption.
+             ++ destruct (I4 x (or_intror Hx)) as [Hh|Ha]; [left; assumption | right; apply in_or_app; right; assumption].
+          -- intros x Hx.
+             assert (Hx' : In x new \/ (In x Hs \/ In x acc)).
+             { destruct Hx as [Hx|Hx]; [right; left; assumption|].
+               apply in_app_or in Hx. destruct Hx as [Hx|Hx]; [left | right; right]; assumption. }
+             destruct Hx' as [Hn|Ho]; [left; apply in_or_app; left; assumption|].
+             destruct (I5 x Ho) as [[<-|Hw]|Hc].
+             ++ right. intros j HjV Hjx. apply H3. apply Hprev. split; assumption.
+             ++ left. apply in_or_app. right; assumption.
+             ++ right. intros j HjV Hjx. apply in_or_app. right. apply Hc; assumption.
+        * rewrite !app_length. simpl in Hlen. lia.
+  Qed.
+
+  (* the closure started from the worklist wl (= Hs as a set), with enough fuel *)
+  Theorem back_close_spec : forall fuel wl,
+    (forall k, In k wl <-> In k Hs) -> length wl + length V < fuel ->
+    forall c, In c (back_close fuel prev wl []) <-> BReach p V Hs c.
+  Proof.
+    intros fuel wl Hwl Hlen.
+    destruct (back_close_inv fuel wl []) as (Hsound & Hclosed).
+    - repeat split.
+      + constructor.
+      + intros x [].
+      + intros c [].
+      + intros k Hk. left. apply Hwl; assumption.
+      + intros k [Hk|[]]. left. apply Hwl; assumption.
+    - simpl. lia.
+    - intros c. split; [apply Hsound|].
+      intros Hb. induction Hb as [c k HcV Hck Hk | c b HcV Hcb Hb IH].
+      + apply (Hclosed k); auto.
+      + apply (Hclosed b); auto.
+  Qed.
+End Back.
+
+Lemma match_heads_cm p regex l : match_heads (map (cm p regex) l) = l.
+Proof.
+  induction l as [|k l IH]; [reflexivity|].
+  simpl. unfold cm at 1. destruct (pred (length regex)); simpl; rewrite IH; reflexivity.
+Qed.
+
+Section Closure.
+  Variable p : prog.
+  Variable regex : list instr.
+  Variables (fuel start : nat) (r : bool) (st : rstate).
+  Hypothesis Hrun : find_instructions fuel p regex start (mkR [] [] []) = Done (r, st).
+
+  (* the heads of the reported matches are the reachable match starts *)
+  Lemma match_heads_run : match_heads (r_matches st) = filter (im p regex) (rev (r_visited st)).
+  Proof. rewrite (matches_exact p regex fuel start r st Hrun). apply match_heads_cm. Qed.
+
+  Lemma head_iff k : In k (match_heads (r_matches st)) <-> Reach p start k /\ is_match p (Some k) regex = true.
+  Proof.
+    rewrite match_heads_run, filter_In, <- in_rev, (visited_reach p regex fuel start r st Hrun). reflexivity.
+  Qed.
+
+  Lemma BReach_run c :
+    BReach p (r_visited st) (match_heads (r_matches st)) c <->
+    Reach p start c /\ exists k, ReachPlus p c k /\ is_match p (Some k) regex = true.
+  Proof.
+    split.
+    - intros Hb. induction Hb as [c k HcV Hck Hk | c b HcV Hcb Hb IH].
+      + apply (visited_reach p regex fuel start r st Hrun) in HcV. apply head_iff in Hk.
+        split; [assumption|]. exists k. split; [|apply Hk]. exists k. split; [assumption | apply Reach_refl].
+      + apply (visited_reach p regex fuel start r st Hrun) in HcV.
+        destruct IH as (_ & k & Hbk & Hm).
+        split; [assumption|]. exists k. split; [|assumption]. exists b. split; [assumption | apply ReachPlus_Reach; assumption].
+    - intros (Hc & k & (b & Hcb & Hbk) & Hm).
+      assert (Hk : In k (match_heads (r_matches st))).
+      { apply head_iff. split; [|assumption].
+        eapply Reach_trans; [eassumption|]. eapply Reach_step; eassumption. }
+      revert c Hc Hcb. induction Hbk as [b | b b' k Hbb' Hb'k IH]; intros c Hc Hcb.
+      + eapply BR_head; [apply (visited_reach p regex fuel start r st Hrun) | |]; eassumption.
+      + eapply BR_step; [apply (visited_reach p regex fuel start r st Hrun); assumption | eassumption |].
+        apply IH; try assumption.
+        eapply Reach_trans; [eassumption|]. apply Reach_one; assumption.
+  Qed.
+
+  (* reaches_match = the reachable positions from which a match start is reachable in at least one step *)
+  Theorem reaches_match_exact : forall c,
+    In c (reaches_match p (r_visited st) (r_matches st)) <->
+    Reach p start c /\ exists k, ReachPlus p c k /\ is_match p (Some k) regex = true.
+  Proof.
+    intros c. rewrite <- BReach_run. unfold reaches_match.
+    apply (back_close_spec p (prevs_in (next_table p (r_visited st))) (r_visited st) (match_heads (r_matches st))).
+    - intros j k. apply (ins_prevs_spec p (r_visited st) j k). exact (visited_some p regex fuel start r st Hrun).
+    - intros k. rewrite <- in_rev. reflexivity.
+    - rewrite rev_length. lia.
+  Qed.
+
+  (* the set marked by the depth-first search is contained in the closure: the union is the closure *)
+  Theorem dfs_covered_in_closure : forall c,
+    In c (r_covered st) -> In c (reaches_match p (r_visited st) (r_matches st)).
+  Proof. intros c Hc. apply reaches_match_exact. exact (covered_sound p regex fuel start r st Hrun c Hc). Qed.
+
+  Theorem covered_closed_exact : forall c,
+    In c (r_covered st ++ reaches_match p (r_visited st) (r_matches st)) <->
+    Reach p start c /\ exists k, ReachPlus p c k /\ is_match p (Some k) regex = true.
+  Proof.
+    intros c. rewrite in_app_iff, reaches_match_exact. split; [|auto].
+    intros [Hc|Hc]; [exact (covered_sound p regex fuel start r st Hrun c Hc) | assumption].
+  Qed.
+End Closure.
+
 (* ------------------------------------------------------------------ match_regex *)
 Theorem match_regex_nolabel : forall fuel t label regex,
   find_regex_label t label = None -> match_regex fuel t label regex = Done ([], []).
@@ -646,7 +951,7 @@ Theorem match_regex_spec : forall fuel t label regex start ms cov,
              exists k, Reach (t_prog t) start k /\ is_match (t_prog t) (Some k) regex = true /\
                        m = collect_match (t_prog t) k (pred (length regex))) /\
   NoDup ms /\
-  (forall c, In c cov ->
+  (forall c, In c cov <->
              Reach (t_prog t) start c /\
              exists k, ReachPlus (t_prog t) c k /\ is_match (t_prog t) (Some k) regex = true) /\
   (forall k, Reach (t_prog t) start k -> is_match (t_prog t) (Some k) regex = true ->
@@ -654,16 +959,45 @@ Theorem match_regex_spec : forall fuel t label regex start ms cov,
 Proof.
   intros fuel t label regex start ms cov Hl H. unfold match_regex in H. rewrite Hl in H.
   destruct (find_instructions fuel (t_prog t) regex start (mkR [] [] [])) as [[r st]| |] eqn:E; try discriminate.
-  inversion H; subst. repeat split.
-  - apply (matches_sound_complete _ _ _ _ _ _ E).
+  inversion H; subst. split; [|split; [|split]].
   - apply (matches_sound_complete _ _ _ _ _ _ E).
   - apply (matches_nodup _ _ _ _ _ _ E).
-  - apply (covered_sound _ _ _ _ _ _ E); assumption.
-  - apply (covered_sound _ _ _ _ _ _ E); assumption.
-  - apply (covered_path_partial _ _ _ _ _ _ E).
+  - apply (covered_closed_exact _ _ _ _ _ _ E).
+  - intros k Hk Hm. eapply CPath_mono; [|apply (covered_path_partial _ _ _ _ _ _ E); assumption].
+    apply incl_appl, incl_refl.
 Qed.
 
-(* ------------------------------------------------------------------ 5. covered is incomplete (finding D14) *)
+(* the same, spelling out that the match start is itself reachable from the label:
+   c is covered iff it lies strictly before a match start on a path label ->* c ->+ k *)
+Theorem match_regex_covered_exact : forall fuel t label regex start ms cov,
+  find_regex_label t label = Some start ->
+  match_regex fuel t label regex = Done (ms, cov) ->
+  forall c, In c cov <->
+            Reach (t_prog t) start c /\
+            exists k, ReachPlus (t_prog t) c k /\ Reach (t_prog t) start k /\
+                      is_match (t_prog t) (Some k) regex = true.
+Proof.
+  intros fuel t label regex start ms cov Hl H c.
+  destruct (match_regex_spec fuel t label regex start ms cov Hl H) as (_ & _ & Hc & _).
+  rewrite Hc. split.
+  - intros (Hs & k & Hck & Hm). split; [assumption|]. exists k. repeat split; try assumption.
+    eapply Reach_trans; [eassumption | apply ReachPlus_Reach; assumption].
+  - intros (Hs & k & Hck & _ & Hm). split; [assumption|]. exists k. split; assumption.
+Qed.
+
+(* the closure needs no fuel of its own: match_regex is Done exactly when the depth-first search is *)
+Theorem match_regex_done_iff : forall fuel t label regex start,
+  find_regex_label t label = Some start ->
+  ((exists x, match_regex fuel t label regex = Done x) <->
+   (exists y, find_instructions fuel (t_prog t) regex start (mkR [] [] []) = Done y)).
+Proof.
+  intros fuel t label regex start Hl. unfold match_regex. rewrite Hl.
+  destruct (find_instructions fuel (t_prog t) regex start (mkR [] [] [])) as [[r st]| |]; split;
+    intros (x & Hx); try discriminate; eauto.
+Qed.
+
+(* ------------------------------------------------------------------ 5. the covered set of the depth-first search ALONE is
+   incomplete (finding D14): this is why match_regex completes it with the backward closure *)
 Module D14.
   Open Scope string_scope.
   (* int 0; bnz a; int 5; pop; b j; a: int 6; pop; j: int 1; return *)
@@ -679,7 +1013,7 @@ Module D14.
     = Ok prog14.
   Proof. vm_compute. reflexivity. Qed.
 
-  Lemma next14 : map (ins_next prog14) (seq 0 11) =
+  Lemma next14 : map (rx_next prog14) (seq 0 11) =
     [Some [1]; Some [2; 5]; Some [3]; Some [4]; Some [8]; Some [6]; Some [7]; Some [8]; Some [9]; Some [10]; Some []].
   Proof. vm_compute. reflexivity. Qed.
 
@@ -689,7 +1023,8 @@ Module D14.
     Done (true, mkR [7; 6; 5; 10; 9; 8; 4; 3; 2; 1; 0] [[9; 10]] [0; 1; 2; 3; 4; 8]).
   Proof. vm_compute. reflexivity. Qed.
 
-  Ltac go n := apply (Reach_step _ _ n); [eexists; split; [vm_compute; reflexivity | simpl; tauto] |].
+  Ltac st := eapply rx_step_in; [vm_compute; reflexivity | simpl; tauto].
+  Ltac go n := apply (Reach_step _ _ n); [st |].
 
   (* 5, 6 and 7 lie on the path 0,1,5,6,7,8,9 from the start to the match at 9 *)
   Lemma on_path14 : forall c, In c [5; 6; 7] ->
@@ -698,9 +1033,9 @@ Module D14.
     intros c Hc. simpl in Hc.
     assert (H05 : Reach prog14 0 5) by (go 1; go 5; apply Reach_refl).
     assert (H89 : Reach prog14 8 9) by (go 9; apply Reach_refl).
-    assert (H78 : istep prog14 7 8) by (eexists; split; [vm_compute; reflexivity | simpl; tauto]).
-    assert (H67 : istep prog14 6 7) by (eexists; split; [vm_compute; reflexivity | simpl; tauto]).
-    assert (H56 : istep prog14 5 6) by (eexists; split; [vm_compute; reflexivity | simpl; tauto]).
+    assert (H78 : rstep_rx prog14 7 8) by st.
+    assert (H67 : rstep_rx prog14 6 7) by st.
+    assert (H56 : rstep_rx prog14 5 6) by st.
     destruct Hc as [<-|[<-|[<-|[]]]]; (split; [|split; [|vm_compute; reflexivity]]).
     - assumption.
     - exists 6. split; [assumption|]. eapply Reach_step; [eassumption|]. eapply Reach_step; eassumption.
@@ -712,10 +1047,14 @@ Module D14.
 
   Lemma not_covered14 : forall c, In c [5; 6; 7] -> ~ In c [0; 1; 2; 3; 4; 8].
   Proof. intros c Hc H. simpl in *. lia. Qed.
+
+  (* the closure restores them: everything before the match start 9 *)
+  Lemma closure14 : reaches_match prog14 [7; 6; 5; 10; 9; 8; 4; 3; 2; 1; 0] [[9; 10]] = [5; 6; 0; 1; 2; 3; 4; 7; 8].
+  Proof. vm_compute. reflexivity. Qed.
 End D14.
 
-(* "covered = all positions on some path from the start to a match" fails *)
-Theorem covered_incomplete_refuted :
+(* "covered = all positions on some path from the start to a match" fails for find_instructions alone *)
+Theorem dfs_covered_incomplete_refuted :
   ~ (forall p regex fuel start r st,
        find_instructions fuel p regex start (mkR [] [] []) = Done (r, st) ->
        forall c k, Reach p start c -> ReachPlus p c k -> is_match p (Some k) regex = true ->
@@ -727,6 +1066,73 @@ Proof.
   apply (D14.not_covered14 5); [simpl; tauto | exact Hin].
 Qed.
 
+(* ------------------------------------------------------------------ 9. examples through the whole front end *)
+Module Examples.
+  Open Scope string_scope.
+  Definition nl : string := String "010"%char "".
+
+  (* result: matches, covered as returned, covered as a sorted duplicate-free list of positions *)
+  Definition regex_on (lines : list string) (label : string) (regex : list instr)
+    : option (list (list nat) * list nat * list nat) :=
+    match parse_program (String.concat nl lines) with
+    | Ok p => match parse_teal p with
+              | Ok t => match match_regex 100 t label regex with
+                        | Done (ms, cov) => Some (ms, cov, filter (fun k => nat_mem k cov) (seq 0 (length p)))
+                        | _ => None
+                        end
+              | Err _ => None
+              end
+    | Err _ => None
+    end.
+
+  (* the diamond: positions 0 pragma, 1 int 0, 2 bnz a, 3 int 5, 4 pop, 5 b j, 6 a:, 7 int 6, 8 pop, 9 j:, 10 int 1, 11 return.
+     The search marks 0,1,2,3,4,5,9 (first seven entries); the closure (remaining entries) adds the a: branch 6,7,8 *)
+  Example diamond_covered :
+    regex_on ["#pragma version 6"; "int 0"; "bnz a"; "int 5"; "pop"; "b j"; "a:"; "int 6"; "pop"; "j:"; "int 1"; "return"]
+             "*" [IInt (IANum 1); IReturn]
+    = Some ([[10; 11]], [0; 1; 2; 3; 4; 5; 9; 6; 7; 0; 1; 2; 3; 4; 5; 8; 9], [0; 1; 2; 3; 4; 5; 6; 7; 8; 9]).
+  Proof. vm_compute. reflexivity. Qed.
+
+  (* a loop: 0 pragma, 1 l:, 2 int 1, 3 pop, 4 int 2, 5 bnz l, 6 int 1, 7 return; pattern int 1; pop (match at 2).
+     The search marks only 0 and 1 (first two entries); the loop body 2,3,4,5 leads back to the match and is added by the closure *)
+  Example loop_covered :
+    regex_on ["#pragma version 6"; "l:"; "int 1"; "pop"; "int 2"; "bnz l"; "int 1"; "return"]
+             "*" [IInt (IANum 1); IOther "Pop" []]
+    = Some ([[2; 3]], [0; 1; 2; 3; 4; 0; 5; 1], [0; 1; 2; 3; 4; 5]).
+  Proof. vm_compute. reflexivity. Qed.
+
+  (* the search follows callsub into the subroutine: 0 pragma, 1 callsub f, 2 int 1, 3 return, 4 f:, 5 int 7, 6 pop, 7 retsub;
+     pattern int 7 from *: one match at 5; covered = pragma, callsub f, f: *)
+  Definition callsub_lines : list string :=
+    ["#pragma version 8"; "callsub f"; "int 1"; "return"; "f:"; "int 7"; "pop"; "retsub"].
+
+  Example callsub_followed :
+    regex_on callsub_lines "*" [IInt (IANum 7)] = Some ([[5]], [0; 1; 4; 0; 1; 4], [0; 1; 4]).
+  Proof. vm_compute. reflexivity. Qed.
+
+  (* as source lines, the way the tool reports them: matches [[6]], covered lines [1;2;5] *)
+  Definition regex_on_lines (lines : list string) (label : string) (regex : list instr)
+    : option (list (list nat) * list nat) :=
+    match parse_program (String.concat nl lines), regex_on lines label regex with
+    | Ok p, Some (ms, _, cov) =>
+        let line k := match nth_error p k with Some i => i_line i | None => 0 end in
+        Some (map (map line) ms, map line cov)
+    | _, _ => None
+    end.
+
+  Example callsub_followed_lines :
+    regex_on_lines callsub_lines "*" [IInt (IANum 7)] = Some ([[6]], [1; 2; 5]).
+  Proof. vm_compute. reflexivity. Qed.
+
+  (* a pattern still runs ACROSS a callsub (is_match uses Instruction.next): callsub f; int 1 occurs at 1 *)
+  Example pattern_across_callsub :
+    regex_on callsub_lines "*" [ICallsub "f"; IInt (IANum 1)] = Some ([[1; 2]], [0; 0], [0]).
+  Proof. vm_compute. reflexivity. Qed.
+End Examples.
+
+Print Assumptions rx_next_spec.
+Print Assumptions insexec_step_rstep_rx.
+Print Assumptions visited_some.
 Print Assumptions match_listing.
 Print Assumptions is_match_iff_occurs.
 Print Assumptions visited_reach.
@@ -737,9 +1143,16 @@ Print Assumptions matches_starts_nodup.
 Print Assumptions covered_sound.
 Print Assumptions covered_path_partial.
 Print Assumptions covered_start_partial.
-Print Assumptions covered_incomplete_refuted.
+Print Assumptions dfs_covered_incomplete_refuted.
 Print Assumptions reaches_meaning.
 Print Assumptions reaches_iff_reachable_match.
 Print Assumptions find_fuel_mono.
 Print Assumptions find_fuel_agree.
+Print Assumptions ins_prevs_spec.
+Print Assumptions back_close_spec.
+Print Assumptions reaches_match_exact.
+Print Assumptions dfs_covered_in_closure.
+Print Assumptions covered_closed_exact.
 Print Assumptions match_regex_spec.
+Print Assumptions match_regex_covered_exact.
+Print Assumptions match_regex_done_iff.
